@@ -1,5 +1,48 @@
 /-
-  Bcder.Props.C15 — HEADER PLACEHOLDER
+  C15 — Arbitrary-size integers behave like the numbers they encode.
+
+  An `Integer` / `Unsigned` of src/int.rs is represented in the model by its content octets
+  (`Bytes`).  Decoding only ever produces minimal two's complement forms (`Spec.isMinimalTC`; for
+  `Unsigned` additionally non-negative) — that is `integerFromPrimitive_spec` /
+  `unsignedFromPrimitive_spec` below — and `Unsigned::from_bytes` / `From<iN>` produce such forms too
+  (`unsignedFromBytes_spec`, `encInt_spec`), so `isMinimalTC a` is the invariant of the type and the
+  hypothesis of the theorems.  Everything is proved for ALL octet strings of ANY length (no size
+  bound; induction over the list), with the number given by the reference `Spec.tcValue : Bytes → Int`.
+
+  Main theorems
+  * toolkit: `beValue_cons`, `beValue_lt`, `beValue_append`, `beValue_inj`, `cmpZip_eq_compare`
+    (the `zip` loop of `Ord` on equal lengths is `compare` of the big-endian values),
+    `tcValue_range` (n octets: value in [-2^(8n-1), 2^(8n-1))), `minimal_magnitude` (minimal n ≥ 2
+    octets: value ≥ 2^(8n-9) resp. < -2^(8n-9)), `longer_larger_magnitude`.
+  * `cmp_eq_value`: `Ord::cmp` on minimal forms is `compare` of the numbers (never panics).
+  * `eq_iff_value` / `minimal_inj`: `PartialEq` (octet equality, which is also what `Hash` feeds) holds
+    exactly when the numbers are equal: minimal forms are unique, so equal numbers have equal hashes.
+  * `isZero_iff_value`, `isPositive_eq_value`, `isNegative_eq_value`: the three predicates.
+  * `unsignedFromBytes_spec`, `unsignedFromBytes_nil`, `unsignedFromBytes_of_minimal`:
+    `Unsigned::from_bytes/from_slice/try_from` on EVERY non-empty magnitude (any number of leading
+    zeros, all zeros included) returns the minimal form of exactly that number and never panics;
+    the empty magnitude is refused.
+  * `integerFromPrimitive_spec`, `unsignedFromPrimitive_spec` (under `runG0`, content window
+    `St (c ++ rest) (some c.length)`): accepted iff minimal (and non-negative), value kept verbatim,
+    content fully consumed, otherwise a content error.
+  * `sliceToSigned_value`, `sliceToUnsigned_value` (+ `_decodeInt` forms against `Spec.decodeInt`):
+    `TryFrom<&Integer/&Unsigned> for iN/uN` for every width `w ≥ 1` (any `w` for unsigned): `Some` of
+    the number exactly when `Spec.inRange` holds, else the overflow error, never a panic.
+  * `encInt_spec`, `from_then_toSigned`, `from_then_toUnsigned`: `From<iN/uN>` writes the minimal
+    form of exactly the number, for all ten builtin types and every value of the type.
+
+  Hypotheses / NOT covered
+  * On non-minimal octets (e.g. `00 00`) `cmp`, `eq`, `is_positive` do NOT agree with the numbers
+    (examples at the end): such values are unreachable through the safe constructors modelled
+    here; `from_bytes_unchecked` (which skips the check) is out of scope.
+  * On the empty list `is_positive`, `is_negative`, `cmp`, the `TryFrom` conversions index out of
+    bounds (the model returns `.panic`); `isMinimalTC [] = false` excludes it, and no modelled
+    constructor produces it.
+  * `Hash` itself is not modelled beyond "hashes the content octets"; `PartialOrd`, `Display`
+    etc. are not modelled.  The link `r = Spec.minimalTC n` (the *constructive* minimal form) is not
+    proved here; `isMinimalTC r ∧ tcValue r = n` determines `r` uniquely by `minimal_inj`.
+  * `sliceToSigned_value` needs `w ≥ 1` only because `Spec.inRange true 0` is the degenerate
+    range [-1, 1) (example at the end); the Rust types have `w ∈ {1,2,4,8,16}`.
 -/
 import Bcder.Model.Int
 import Bcder.Spec.Values
@@ -845,6 +888,307 @@ theorem sliceToUnsigned_decodeInt (w : Nat) (a : Bytes) (ha : isMinimalTC a = tr
   rw [sliceToUnsigned_value w a ha]; simp only [decodeInt, ha, Bool.true_and]
   split <;> rfl
 
+/-! ### conversions from fixed-width types (`From<iN> for Integer`, `From<uN> for Unsigned`):
+    the content is `val.to_encoded_bytes()`, i.e. `encInt` -/
+
+theorem toBE_length (w n : Nat) : (toBE w n).length = w := by
+  induction w generalizing n with
+  | zero => rfl
+  | succ w ih => simp [toBE, ih]
+
+theorem beValue_toBE (w n : Nat) : beValue (toBE w n) = n % 256 ^ w := by
+  induction w generalizing n with
+  | zero => simp [toBE, beValue_nil, Nat.mod_one]
+  | succ w ih =>
+    have h1 : beValue [UInt8.ofNat (n % 256)] = n % 256 := by
+      rw [beValue_cons, beValue_nil, toNat_ofNat]; simp
+    rw [toBE, beValue_append, ih, h1, Nat.pow_succ, Nat.mul_comm (256 ^ w) 256, Nat.mod_mul]
+    simp only [List.length_cons, List.length_nil, Nat.pow_succ, Nat.pow_zero]
+    omega
+
+theorem dropWhile_split (c : UInt8) (l : Bytes) :
+    ∃ (k : Nat) (v : Bytes), l = List.replicate k c ++ v ∧ l.dropWhile (· == c) = v ∧
+      (∀ v0 rest, v = v0 :: rest → v0 ≠ c) := by
+  induction l with
+  | nil => exact ⟨0, [], rfl, rfl, by intro _ _ h; cases h⟩
+  | cons x bs ih =>
+    by_cases hx : x = c
+    · obtain ⟨k, v, h1, h2, h3⟩ := ih
+      refine ⟨k + 1, v, ?_, ?_, h3⟩
+      · rw [List.replicate_succ, List.cons_append, ← h1, hx]
+      · subst hx; simp [h2]
+    · refine ⟨0, x :: bs, rfl, ?_, ?_⟩
+      · simp [hx]
+      · intro v0 rest h; cases h; exact hx
+
+theorem signedOfBE_eq_tcValue (l : Bytes) : signedOfBE l = tcValue l := by
+  cases l with
+  | nil => rfl
+  | cons b t => exact signedOfBE_extend b t 0
+
+/-- leading `FF` octets in front of a negative form do not change the value -/
+theorem tcValue_ff_extend (k : Nat) (b : UInt8) (t : Bytes) (hb : 128 ≤ b.toNat) :
+    tcValue (List.replicate k (0xFF : UInt8) ++ b :: t) = tcValue (b :: t) := by
+  have := signedOfBE_extend b t k
+  rw [if_neg (by omega)] at this
+  rw [← signedOfBE_eq_tcValue, this]
+
+/-- leading `00` octets in front of a non-negative form do not change the value -/
+theorem tcValue_zero_extend (k : Nat) (b : UInt8) (t : Bytes) (hb : b.toNat < 128) :
+    tcValue (List.replicate k (0 : UInt8) ++ b :: t) = tcValue (b :: t) := by
+  have := signedOfBE_extend b t k
+  rw [if_pos hb] at this
+  rw [← signedOfBE_eq_tcValue, this]
+
+/-- what `signed_content!` writes for a negative value whose `w` octets are `k` times `FF` then `v` -/
+def negResult (v : Bytes) : Bytes :=
+  match v with
+  | [] => []
+  | b :: _ => (if b.toNat < 128 then [0xFF] else []) ++ v
+
+theorem negResult_spec (k : Nat) (v0 : UInt8) (rest : Bytes) (hv : v0 ≠ 0xFF)
+    (hneg : tcValue (List.replicate k (0xFF : UInt8) ++ v0 :: rest) < 0) :
+    isMinimalTC (negResult (v0 :: rest)) = true ∧
+      tcValue (negResult (v0 :: rest)) = tcValue (List.replicate k (0xFF : UInt8) ++ v0 :: rest) := by
+  have hff : (0xFF : UInt8).toNat = 255 := rfl
+  have hne : v0.toNat ≠ 255 := fun e => hv (UInt8.toNat_inj.mp (e.trans hff.symm))
+  simp only [negResult]
+  by_cases h : v0.toNat < 128
+  · rw [if_pos h]
+    have hk : k ≠ 0 := by
+      intro e; subst e
+      have := (tcValue_neg_iff v0 rest).mp (by simpa using hneg)
+      omega
+    obtain ⟨j, rfl⟩ : ∃ j, k = j + 1 := ⟨k - 1, by omega⟩
+    refine ⟨?_, ?_⟩
+    · show isMinimalTC (0xFF :: v0 :: rest) = true
+      rw [minimal_cons2]; omega
+    · rw [List.replicate_succ', List.append_assoc]
+      exact (tcValue_ff_extend j 0xFF (v0 :: rest) (by decide)).symm
+  · rw [if_neg h]
+    refine ⟨?_, (tcValue_ff_extend k v0 rest (by omega)).symm⟩
+    show isMinimalTC (v0 :: rest) = true
+    cases rest with
+    | nil => rfl
+    | cons y t => rw [minimal_cons2]; omega
+
+theorem tcValue_toBE_signed (w : Nat) (hw : 1 ≤ w) (v : Int) (hr : inRange true w v = true) :
+    tcValue (toBE w (v % (2 : Int) ^ (8 * w)).toNat) = v := by
+  have ⟨h1, h2⟩ := (inRange_signed_iff w hw v).mp hr
+  obtain ⟨j, rfl⟩ : ∃ j, w = j + 1 := ⟨w - 1, by omega⟩
+  rw [Nat.add_sub_cancel] at h1 h2
+  have hp : (2 : Int) ^ (8 * (j + 1)) = ((256 * 256 ^ j : Nat) : Int) := by
+    rw [int_two_pow, ← pow256, Nat.pow_succ, Nat.mul_comm]
+  rw [hp, ← signedOfBE_eq_tcValue]
+  have hpos := pow_pos256 j
+  generalize hm : (v % ((256 * 256 ^ j : Nat) : Int)).toNat = m
+  have hmv : (m : Int) = if v < 0 then v + ((256 * 256 ^ j : Nat) : Int) else v := by
+    rw [← hm]
+    by_cases hv : v < 0
+    · rw [if_pos hv, ← Int.add_mul_emod_self_left v _ 1, Int.mul_one,
+        Int.emod_eq_of_lt (by omega) (by omega)]
+      omega
+    · rw [if_neg hv, Int.emod_eq_of_lt (by omega) (by omega)]; omega
+  have hlt : m < 256 * 256 ^ j := by split at hmv <;> omega
+  have hb : beValue (toBE (j + 1) m) = m := by
+    rw [beValue_toBE, Nat.pow_succ, Nat.mul_comm, Nat.mod_eq_of_lt hlt]
+  simp only [signedOfBE, hb, toBE_length, two_pow_sub1 (j + 1) (by omega), Nat.add_sub_cancel,
+    int_two_pow, ← pow256, Nat.pow_succ, Nat.mul_comm (256 ^ j) 256]
+  by_cases hv : v < 0
+  · rw [if_pos hv] at hmv
+    rw [if_pos ⟨by omega, by omega⟩]; omega
+  · rw [if_neg hv] at hmv
+    rw [if_neg (by omega)]; omega
+
+/-- `unsigned_content!` and the non-negative branch of `signed_content!` write `fromBytesResult`
+    of the stripped octets -/
+theorem zero_result (b : UInt8) (t : Bytes) (f : UInt8 → Bool)
+    (hf : ∀ b, f b = decide (128 ≤ b.toNat)) :
+    (if f b = true then [0] else []) ++ b :: t = fromBytesResult (b :: t) := by
+  simp only [fromBytesResult, hf, decide_eq_true_eq]
+  by_cases h : b.toNat < 128
+  · rw [if_neg (by omega), if_pos h]; rfl
+  · rw [if_pos (by omega), if_neg h]; rfl
+
+theorem strip_zero_spec (l : Bytes) :
+    ∃ u, l.dropWhile (· == 0) = u ∧ (beValue l ≠ 0 → u ≠ []) ∧
+      isMinimalTC (fromBytesResult u) = true ∧ tcValue (fromBytesResult u) = (beValue l : Int) := by
+  obtain ⟨k, v, h1, h2, h3⟩ := dropWhile_split 0 l
+  have hb : beValue l = beValue v := by
+    rw [h1, beValue_append, beValue_replicate_zero]; simp
+  refine ⟨v, h2, ?_, (fromBytesResult_spec v h3).1, by rw [(fromBytesResult_spec v h3).2, hb]⟩
+  intro hl e; subst e; exact hl (hb.trans beValue_nil)
+
+theorem encUnsigned_spec (w n : Nat) (hn : n < 256 ^ w) :
+    isMinimalTC (encUnsigned w n) = true ∧ tcValue (encUnsigned w n) = (n : Int) := by
+  unfold encUnsigned
+  by_cases h0 : n = 0
+  · subst h0; exact ⟨rfl, rfl⟩
+  · have hz : (n == 0) = false := by simp [h0]
+    rw [hz]; simp only [Bool.false_eq_true, if_false]
+    have hb : beValue (toBE w n) = n := by rw [beValue_toBE, Nat.mod_eq_of_lt hn]
+    obtain ⟨u, e1, e2, e3⟩ := strip_zero_spec (toBE w n)
+    rw [e1]
+    cases u with
+    | nil => exact absurd rfl (e2 (by omega))
+    | cons b t =>
+      show isMinimalTC ((if ((b &&& 0x80) != 0) = true then [0] else []) ++ b :: t) = true ∧
+        tcValue ((if ((b &&& 0x80) != 0) = true then [0] else []) ++ b :: t) = _
+      rw [zero_result b t (fun b => (b &&& 0x80) != 0) byte_and80_ne0, ← hb]; exact e3
+
+theorem encSigned_spec (w : Nat) (hw : 1 ≤ w) (v : Int) (hr : inRange true w v = true) :
+    isMinimalTC (encSigned w v) = true ∧ tcValue (encSigned w v) = v := by
+  unfold encSigned
+  by_cases h0 : v = 0
+  · subst h0; exact ⟨rfl, rfl⟩
+  by_cases h1 : v = -1
+  · subst h1; exact ⟨rfl, rfl⟩
+  have hz : (v == 0) = false := by simp [h0]
+  have hz1 : (v == -1) = false := by simp [h1]
+  rw [hz, hz1]; simp only [Bool.false_eq_true, if_false]
+  have hval := tcValue_toBE_signed w hw v hr
+  generalize toBE w (v % (2 : Int) ^ (8 * w)).toNat = l at hval
+  by_cases hv : v < 0
+  · rw [if_pos hv]
+    obtain ⟨k, u, e1, e2, e3⟩ := dropWhile_split 0xFF l
+    rw [e2]
+    cases u with
+    | nil =>
+      exfalso
+      rw [List.append_nil] at e1
+      have hbe := beValue_replicate_ff k
+      cases k with
+      | zero => subst e1; simp [tcValue] at hval; omega
+      | succ j =>
+        rw [List.replicate_succ] at e1
+        rw [e1, tcValue_of_ge 0xFF _ (by decide), ← List.replicate_succ, List.length_replicate] at hval
+        omega
+    | cons v0 rest =>
+      have hneg : tcValue (List.replicate k (0xFF : UInt8) ++ v0 :: rest) < 0 := by
+        rw [← e1, hval]; exact hv
+      have := negResult_spec k v0 rest (e3 v0 rest rfl) hneg
+      simp only [byte_and80_ne80, negResult, decide_eq_true_eq] at this ⊢
+      rw [← e1, hval] at this
+      exact this
+  · rw [if_neg hv]
+    have hx : 0 ≤ tcValue l := by omega
+    have hbe : tcValue l = (beValue l : Int) := by
+      cases l with
+      | nil => rfl
+      | cons b t =>
+        have := tcValue_neg_iff b t
+        exact tcValue_of_lt b t (by omega)
+    have hne : beValue l ≠ 0 := by omega
+    obtain ⟨u, e1, e2, e3⟩ := strip_zero_spec l
+    rw [e1]
+    cases u with
+    | nil => exact absurd rfl (e2 hne)
+    | cons b t =>
+      show isMinimalTC ((if ((b &&& 0x80) == 0x80) = true then [0] else []) ++ b :: t) = true ∧
+        tcValue ((if ((b &&& 0x80) == 0x80) = true then [0] else []) ++ b :: t) = _
+      rw [zero_result b t (fun b => (b &&& 0x80) == 0x80) byte_and80_eq80, ← hval, hbe]; exact e3
+
+theorem encU8_spec (n : Nat) (hn : n < 256) :
+    isMinimalTC (encU8 n) = true ∧ tcValue (encU8 n) = (n : Int) := by
+  have h0 : (0 : UInt8).toNat = 0 := rfl
+  have ht : (UInt8.ofNat n).toNat = n := by rw [toNat_ofNat]; omega
+  unfold encU8
+  by_cases h : n > 0x7F
+  · rw [if_pos h]
+    refine ⟨?_, ?_⟩
+    · show isMinimalTC [0, UInt8.ofNat n] = true
+      rw [minimal_cons2, ht]; omega
+    · show tcValue [0, UInt8.ofNat n] = _
+      rw [tcValue_of_lt 0 _ (by decide), beValue_cons, beValue_cons, beValue_nil, h0, ht]; simp
+  · rw [if_neg h]
+    refine ⟨rfl, ?_⟩
+    show tcValue [UInt8.ofNat n] = _
+    rw [tcValue_of_lt _ _ (by omega), beValue_cons, beValue_nil, ht]; simp
+
+theorem encI8_spec (v : Int) (h1 : -128 ≤ v) (h2 : v < 128) :
+    isMinimalTC (encI8 v) = true ∧ tcValue (encI8 v) = v := by
+  refine ⟨rfl, ?_⟩
+  unfold encI8
+  have hm : (v % 256).toNat < 256 := by omega
+  have ht : (UInt8.ofNat (v % 256).toNat).toNat = (v % 256).toNat := by
+    rw [toNat_ofNat]; omega
+  by_cases hv : v < 0
+  · rw [tcValue_of_ge _ _ (by omega), beValue_cons, beValue_nil, ht]; simp; omega
+  · rw [tcValue_of_lt _ _ (by omega), beValue_cons, beValue_nil, ht]; simp; omega
+
+theorem encInt_unsigned_aux (w : Nat) (v : Int) (hr : inRange false w v = true) :
+    isMinimalTC (encUnsigned w v.toNat) = true ∧ tcValue (encUnsigned w v.toNat) = v := by
+  have hu := (inRange_unsigned_iff w v).mp hr
+  have h := encUnsigned_spec w v.toNat (by omega)
+  exact ⟨h.1, h.2.trans (by omega)⟩
+
+/-- **C15 conversion from `iN` / `uN`** (`Integer::from`, `Unsigned::from`): for every value of
+    the fixed-width type, the content written is the minimal form of exactly that number. -/
+theorem encInt_spec (ty : IntTy) (v : Int) (hr : inRange ty.signed ty.width v = true) :
+    isMinimalTC (encInt ty v) = true ∧ tcValue (encInt ty v) = v := by
+  cases ty with
+  | i8 =>
+    have hr' : inRange true 1 v = true := hr
+    have := (inRange_signed_iff 1 (by decide) v).mp hr'
+    have e : encInt .i8 v = encI8 v := by simp only [encInt]
+    rw [e]; exact encI8_spec v (by omega) (by omega)
+  | u8 =>
+    have hr' : inRange false 1 v = true := hr
+    have := (inRange_unsigned_iff 1 v).mp hr'
+    have h := encU8_spec v.toNat (by omega)
+    have e : encInt .u8 v = encU8 v.toNat := by simp only [encInt]
+    rw [e]; exact ⟨h.1, h.2.trans (by omega)⟩
+  | i16 =>
+    have hr' : inRange true 2 v = true := hr
+    have e : encInt .i16 v = encSigned 2 v := by simp only [encInt, IntTy.signed, IntTy.width, if_true]
+    rw [e]; exact encSigned_spec 2 (by decide) v hr'
+  | i32 =>
+    have hr' : inRange true 4 v = true := hr
+    have e : encInt .i32 v = encSigned 4 v := by simp only [encInt, IntTy.signed, IntTy.width, if_true]
+    rw [e]; exact encSigned_spec 4 (by decide) v hr'
+  | i64 =>
+    have hr' : inRange true 8 v = true := hr
+    have e : encInt .i64 v = encSigned 8 v := by simp only [encInt, IntTy.signed, IntTy.width, if_true]
+    rw [e]; exact encSigned_spec 8 (by decide) v hr'
+  | i128 =>
+    have hr' : inRange true 16 v = true := hr
+    have e : encInt .i128 v = encSigned 16 v := by simp only [encInt, IntTy.signed, IntTy.width, if_true]
+    rw [e]; exact encSigned_spec 16 (by decide) v hr'
+  | u16 =>
+    have hr' : inRange false 2 v = true := hr
+    have e : encInt .u16 v = encUnsigned 2 v.toNat := by
+      simp only [encInt, IntTy.signed, IntTy.width, Bool.false_eq_true, if_false]
+    rw [e]; exact encInt_unsigned_aux 2 v hr'
+  | u32 =>
+    have hr' : inRange false 4 v = true := hr
+    have e : encInt .u32 v = encUnsigned 4 v.toNat := by
+      simp only [encInt, IntTy.signed, IntTy.width, Bool.false_eq_true, if_false]
+    rw [e]; exact encInt_unsigned_aux 4 v hr'
+  | u64 =>
+    have hr' : inRange false 8 v = true := hr
+    have e : encInt .u64 v = encUnsigned 8 v.toNat := by
+      simp only [encInt, IntTy.signed, IntTy.width, Bool.false_eq_true, if_false]
+    rw [e]; exact encInt_unsigned_aux 8 v hr'
+  | u128 =>
+    have hr' : inRange false 16 v = true := hr
+    have e : encInt .u128 v = encUnsigned 16 v.toNat := by
+      simp only [encInt, IntTy.signed, IntTy.width, Bool.false_eq_true, if_false]
+    rw [e]; exact encInt_unsigned_aux 16 v hr'
+
+/-- from a fixed-width type and back to any (signed) fixed-width type: succeeds exactly when the
+    number fits the target, and returns the number -/
+theorem from_then_toSigned (ty : IntTy) (v : Int) (hr : inRange ty.signed ty.width v = true)
+    (w : Nat) (hw : 1 ≤ w) :
+    sliceToSigned w (encInt ty v) = .ok (if inRange true w v = true then some v else none) := by
+  have h := encInt_spec ty v hr
+  rw [sliceToSigned_value w hw _ h.1, h.2]
+
+theorem from_then_toUnsigned (ty : IntTy) (v : Int) (hr : inRange ty.signed ty.width v = true)
+    (w : Nat) :
+    sliceToUnsigned w (encInt ty v) = .ok (if inRange false w v = true then some v.toNat else none) := by
+  have h := encInt_spec ty v hr
+  rw [sliceToUnsigned_value w _ h.1, h.2]
+
 /-! ### the bounds in powers of two, as in the property text -/
 
 /-- any `n`-octet form (`n ≥ 1`) lies in `[-2^(8n-1), 2^(8n-1))` -/
@@ -936,6 +1280,10 @@ example : sliceToUnsigned 1 [0x80] = .ok none := rfl
     degenerate range `[-1, 1)` -/
 example : sliceToSigned 0 [0x00] = .ok none := rfl
 example : inRange true 0 (tcValue [0x00]) = true := by decide
+example : encInt .i16 (-129) = [0xFF, 0x7F] ∧ encInt .u16 128 = [0x00, 0x80] ∧
+    encInt .i8 (-128) = [0x80] ∧ encInt .u8 255 = [0x00, 0xFF] ∧ encInt .i16 (-32768) = [0x80, 0x00] := by
+  decide
+example : inRange IntTy.i16.signed IntTy.i16.width (-129) = true := by decide
 example : runG0 integerFromPrimitive (St ([0x00, 0x80] ++ [0x05]) (some 2)) =
     .ok ([0x00, 0x80], St [0x05] (some 0)) := integerFromPrimitive_spec [0x00, 0x80] [0x05]
 example : runG0 integerFromPrimitive (St ([0x00, 0x7F] ++ [0x05]) (some 2)) = .error .content :=
